@@ -178,7 +178,10 @@ def p4_scale(n=260):
     # symbol instance ids at the 8/16/32-bit segment boundaries
     t1 = p.add_type(layout("IdC4UDT", 0x1C4, 0xD0C4, [("v", "DINT", 0), ("w", "INT", 0)]))
     t2 = p.add_type(layout("IdCAUDT", 0x2CA, 0xD0CA, [("r", "REAL", 0), ("k", "BOOL", 0)]))
-    t3 = p.add_type(layout("Id00UDT", 0x100, 0xD000, [("z", "SINT", 0), ("y", "DINT", 0)]))
+    # (the first and the last template id of the user range; their members may carry any name, also those that predefined types hide)
+    t3 = p.add_type(layout("Id00UDT", 0x100, 0xD000, [("z", "SINT", 0), ("y", "DINT", 0), ("CTL", "INT", 0), ("Control", "DINT", 0)]))
+    t5 = p.add_type(layout("IdEFFUDT", 0xEFF, 0xD0EF, [("Control", "DINT", 0), ("CTL", "INT", 0), ("x", "SINT", 0)]))
+    t6 = p.add_type(layout("IdEFEUDT", 0xEFE, 0xD0EE, [("CTL", "DINT", 0), ("x", "BOOL", 0), ("Control", "REAL", 0)]))
     t4 = p.add_type(layout("IdC1UDT", 0xFC1, 0xD0C1, [("q", "INT", 3)]))
     par = p.add_type(layout("IdsUDT", 0x322, 0xD002, [("m1", t1, 0), ("m2", t2, 2), ("m3", t3, 0), ("m4", t4, 0), ("n", "DINT", 0)]))
     # two different types reporting the same structure handle (the 16-bit handle is a checksum, not an identity), also nested and as strings
@@ -201,6 +204,16 @@ def p4_scale(n=260):
     p.tag("ids_00", t3, instance_id=0x10000)
     p.tag("ids_c1", t4, instance_id=0x12345678)
     p.tag("ids_dint", "DINT", instance_id=0xFFFFFFFE)
+    # types that are only ever reached as MEMBERS (scalar, small array, array of 300) of another type: a user type whose members carry
+    # names that predefined types hide, and a header-less predefined type
+    pdc = p.add_type(TypeDef("COUNTER", 0xF82, 0x0F82, 12, [Member("CTL", "DINT", 0), Member("PRE", "DINT", 4), Member("ACC", "DINT", 8),
+                                                         Member("CU", "BOOL", 3, 0, 7), Member("DN", "BOOL", 3, 0, 5)], predefined=True, first_member_is_name=True))
+    ctl_in = p.add_type(layout("CtlInner", 0x2E0, 0xD0E0, [("Control", "DINT", 0), ("CTL", "INT", 0), ("v", "SINT", 0)]))
+    ctl_in2 = p.add_type(layout("CtlInner2", 0x2E2, 0xD0E2, [("CTL", "REAL", 0), ("w", "INT", 0)]))
+    ctl_out = p.add_type(layout("CtlOuter", 0x2E1, 0xD0E1, [("pre", "INT", 0), ("inner", ctl_in, 0), ("bank", pdc, 300), ("arr", ctl_in2, 2)]))
+    p.tag("ctl_outer", ctl_out, instance_id=2)
+    p.tag("ids_eff", t5, instance_id=0x5020)
+    p.tag("ids_efe_ary", t6, (2,), instance_id=0x5021)
     p.tag("p_only", "DINT", scope="Prog", instance_id=1)
     from .projects import TagDef as TD
     p.add(TD("Program:Prog", None, (), 50, kind="program", symbol_type=0x1068))
